@@ -221,6 +221,11 @@ def build(ctx):
         T('tr_UQ_' + nm, [('t', 'S')], (lambda nm: lambda t: getattr(UnitQuaternion, nm)(t).vec)(nm), sampler=ang)
         T('tr_SO3_' + nm, [('t', 'S')], (lambda nm: lambda t: getattr(SO3, nm)(t).A)(nm), sampler=ang, alloc=True)
         T('tr_SE3_' + nm, [('t', 'S')], (lambda nm: lambda t: getattr(SE3, nm)(t).A)(nm), sampler=ang, alloc=True)
+        # Twist3.Rx(scalar) (accepted since /repo e531d4d): the twist vector, and its exponential by both routes (path |t| >= 10 eps)
+        ang_nz = lambda rng: [float(rng.uniform(0.05, 3) * rng.choice([-1.0, 1.0]))]       # noqa: E731
+        T(f'tr_Tw3_{nm}_S', [('t', 'S')], (lambda nm: lambda t: getattr(Twist3, nm)(t).S)(nm), sampler=ang_nz, optional=True)
+        T(f'tr_Tw3_{nm}_SE3', [('t', 'S')], (lambda nm: lambda t: getattr(Twist3, nm)(t).SE3().A)(nm), sampler=ang_nz, alloc=True, optional=True)
+        T(f'tr_Tw3_{nm}_exp', [('t', 'S')], (lambda nm: lambda t: getattr(Twist3, nm)(t).exp().A)(nm), sampler=ang_nz, alloc=True, optional=True)
     T('tr_SO2_ang', [('t', 'S')], lambda t: SO2(t).A, sampler=ang, alloc=True)
     T('tr_SE2_ang', [('t', 'S')], lambda t: SE2(0, 0, t).A, sampler=ang, alloc=True, optional=True)
     s_tv = lambda rng: [float(rng.uniform(-3, 3)), rand_unit(rng) * log_uniform(rng, 0.2, 5)]     # noqa: E731
@@ -727,9 +732,10 @@ def oracle_constructors(o, rng, n):
             th = near_special_angle(rng)
             for nm, ref in (('Rx', _rx), ('Ry', _ry), ('Rz', _rz)):
                 each(f'{nm}:{unit}', ref(th), [th], lambda cls: getattr(cls, nm)(th * k, unit))
-                tw = o.guard(f'ctor:{nm}:Twist3:scalar-angle', lambda: getattr(Twist3, nm)(th * k, unit).SE3().A, [th])
+                tw = o.guard(f'ctor:{nm}:{unit}:Twist3', lambda: (getattr(Twist3, nm)(th * k, unit).SE3().A, getattr(Twist3, nm)(th * k, unit).exp().A), [th])
                 if tw is not None:
-                    o.cmp(f'ctor:{nm}:{unit}:Twist3', tw, _T(ref(th), [0, 0, 0]), [th])
+                    o.cmp(f'ctor:{nm}:{unit}:Twist3', tw[0], _T(ref(th), [0, 0, 0]), [th])
+                    o.cmp(f'ctor:{nm}:{unit}:Twist3:exp', tw[1], _T(ref(th), [0, 0, 0]), [th])
                 tw = o.guard(f'ctor:{nm}:{unit}:Twist3:list-angle', lambda: getattr(Twist3, nm)([th * k], unit).SE3().A, [th])
                 if tw is not None:
                     o.cmp(f'ctor:{nm}:{unit}:Twist3:list-angle', tw, _T(ref(th), [0, 0, 0]), [th])
